@@ -193,6 +193,10 @@ fn routes(tier: Tier, r: &mut Routes) {
     r.with(&[&[0, 1], &[1, 1]]).visit::<f64, DualVec<f64, f64, Dyn>>(Dims::n(2));
     r.with(&[&[0, 1, 1, 0]]).visit::<f64, HyperDualVec<f64, f64, Const<2>, Const<2>>>(Dims::mn(2, 2));
     r.with(&[&[0, 1, 1, 0]]).visit::<f64, HyperDualVec<f64, f64, Dyn, Dyn>>(Dims::mn(2, 2));
+    // nested vector types: inner Dual64 (generator 0) inside second-order vector types
+    r.with(&[&[0, 0, 1]]).visit::<f64, DualVec<Dual64, f64, Const<2>>>(Dims::n(2));
+    r.with(&[&[0, 0, 1, 0, 1]]).visit::<f64, Dual2Vec<Dual64, f64, Const<2>>>(Dims::n(2));
+    r.with(&[&[0, 0, 1, 1, 0]]).visit::<f64, HyperDualVec<Dual64, f64, Const<2>, Const<2>>>(Dims::mn(2, 2));
     if tier == Tier::Thorough {
         r.with(&[&[0]]).visit::<f64, DualVec<f64, f64, Const<1>>>(Dims::n(1));
         r.with(&[&[0, 1, 0]]).visit::<f64, DualVec<f64, f64, Const<3>>>(Dims::n(3));
@@ -216,8 +220,6 @@ fn routes(tier: Tier, r: &mut Routes) {
         r.with(&[&[0, 1]]).visit::<f32, DualVec<f32, f32, Const<2>>>(Dims::n(2));
         r.with(&[&[0, 1, 0, 1]]).visit::<f32, Dual2Vec<f32, f32, Const<2>>>(Dims::n(2));
         r.with(&[&[0, 0, 1]]).visit::<f32, HyperHyperDual32>(Dims::NONE);
-        // nested vector types
-        r.with(&[&[0, 0, 1]]).visit::<f64, DualVec<Dual64, f64, Const<2>>>(Dims::n(2));
         r.with(&[&[0, 1, 0]]).visit::<f64, Dual<DualSVec64<2>, f64>>(Dims::n(2));
         r.with(&[&[0, 0, 1, 1]]).visit::<f64, HyperDual<HyperDual64, f64>>(Dims::NONE);
         r.with(&[&[0, 0, 0, 0]]).visit::<f64, Dual2<Dual2_64, f64>>(Dims::NONE);
@@ -237,7 +239,7 @@ fn main() {
     let mut stats = Stats::default();
     let tier = if cli.mode == Mode::Quick { Tier::Quick } else { Tier::Thorough };
     let progs = programs(2);
-    let points: &[(f64, f64)] = if cli.mode == Mode::Quick { &[(0.75, -1.25)] } else { &[(0.75, -1.25), (2.5, 0.3125)] };
+    let points: &[(f64, f64)] = if cli.mode == Mode::Quick { &[(0.75, -1.25), (0.0, 0.75)] } else { &[(0.75, -1.25), (2.5, 0.3125), (0.0, 0.75), (-1.25, 0.0)] };
     let mut n_routes = 0;
     let mut pairs_compared = 0u64;
     let mut bit_identical = 0u64;
